@@ -78,9 +78,14 @@ def r1_exponent(ctx):
                   and len(st.targets) == 1 and isinstance(st.targets[0], ast.Name)]
         dec_args = {U(c.args[0]) for _, c, _, _ in sf.decisions if c.args}
         alphas = [a for a in alphas if a.targets[0].id in dec_args]
-        if len(alphas) != 1:
-            raise AnalysisError("C03.R1", f"{f.qual}: cannot find `alpha = torch.exp(E)` feeding the decision")
-        E = alphas[0].value.args[0]
+        direct = [c.args[0] for _, c, _, _ in sf.decisions if c.args and isinstance(c.args[0], ast.Call) and U(c.args[0].func) == "torch.exp" and c.args[0].args]
+        if len(alphas) == 1:
+            E, anchor = alphas[0].value.args[0], alphas[0]
+        elif len(direct) == 1 and not alphas:
+            E, anchor = direct[0].args[0], direct[0]
+        else:
+            raise AnalysisError("C03.R1", f"{f.qual}: cannot find `torch.exp(E)` feeding the decision")
+        alphas = [anchor]
         temp = [p.arg for p in f.node.args.kwonlyargs + f.node.args.args if "temperature" in p.arg]
         if len(temp) != 1:
             raise AnalysisError("C03.R1", f"{f.qual}: inverse temperature parameter not found")
@@ -95,6 +100,10 @@ def r1_exponent(ctx):
             ctx.violation("C03.R1", f, alphas[0], f"no state read bound to {missing}: the decision does not compare the values before and after the proposal")
             continue
         try:
+            # augmented assignments on a term between its read and the exponent (x *= a is x = x * a for the value compared)
+            for st in sorted(statements(f.node), key=lambda x: (x.lineno, x.col_offset)):
+                if isinstance(st, ast.AugAssign) and isinstance(st.target, ast.Name) and st.target.id in roles and st.lineno < anchor.lineno:
+                    env[st.target.id] = Normalizer(env)(ast.BinOp(left=ast.Name(id=st.target.id, ctx=ast.Load()), op=st.op, right=st.value))
             got = Normalizer(env)(E)
         except NFUnsupported as e:
             ctx.unknown("C03.R1", f, alphas[0], f"exponent not in the supported expression subset: {e}")
@@ -122,6 +131,19 @@ def r1_exponent(ctx):
                       f"({rew.get((role, 'prev')) or 'none'})",
                       f"the {'attachment' if role == 'A' else 'regularity'} read before the proposal is post-processed as {rew.get((role, 'prev'))} but the one read after as {rew.get((role, 'new'))}",
                       construct=f"post-processing of role {role}")
+
+
+def r1c_no_inplace(ctx):
+    """The likelihood terms compared by the decision are the State's cached tensors (and the fork's): tempering / re-weighting them in
+    place changes what later steps (and the revert of this one) read."""
+    from ._shared import inplace_on_state_values
+    ctx.rule("C03.R1c", "the terms read from the state for the decision are never modified in place", 2)
+    funcs = [sf.f for sf in sample_functions(ctx.ix, "C03.R1c")]
+    sites, holders = inplace_on_state_values(ctx, funcs)
+    for fn, node, desc in sites:
+        ctx.violation("C03.R1c", fn, node, desc + ": the cached likelihood term (and the reference kept for rejection) is altered, so later decisions use a stale, modified value")
+    for fn, names in holders:
+        ctx.ok("C03.R1c", fn, fn.node, f"terms {names} alias State values and are only combined out of place", construct=f"def {fn.name}")
 
 
 def r2_draw(ctx):
@@ -186,7 +208,8 @@ def r2_draw(ctx):
                       f"{sf.kind} sampler decides with {sorted(kinds)}: " + ("one global draw for all individuals" if sf.kind == "individual" else "unexpected decision function"))
             # alpha argument
             for _, c, _, _ in sf.decisions:
-                ctx.check(len(c.args) == 1 and isinstance(c.args[0], ast.Name), "C03.R2", sf.f, c, "decision takes alpha", "decision does not take the acceptance probability")
+                ctx.check(len(c.args) == 1 and (isinstance(c.args[0], ast.Name) or (isinstance(c.args[0], ast.Call) and U(c.args[0].func) == "torch.exp")), "C03.R2", sf.f, c, "decision takes alpha (R1 decides what alpha is)",
+                          "decision does not take the acceptance probability")
 
 
 def _product_factors(e, inl):
@@ -348,6 +371,7 @@ def r5_individual(ctx):
 
 def rules(ctx):
     r1_exponent(ctx)
+    r1c_no_inplace(ctx)
     r2_draw(ctx)
     r3_proposal(ctx)
     r4_terms(ctx)
